@@ -15,3 +15,19 @@ Definition snapshot_progress_current : bool := true.
 (** pubsub/oneonone/channel.go monitorTopic forwards only messages published by the
     channel's peer (true); false = the pinned commit (everything but own messages). *)
 Definition oneonone_filters_sender_current : bool := true.
+
+(** C13 switches (all repaired on this tree by fix: commits 32e1455, 69804d8, 7aa5c71, f33151f). *)
+(** replicator.GetQueue lists the tasks that are not fetched (true); false = pinned: indexes a
+    queue-sized slice with the whole task table. *)
+Definition c13_sized_by_unfinished_current : bool := true.
+(** SaveSnapshot fails on a frame of 64 KiB or more (true); false = pinned: truncated length. *)
+Definition c13_reject_oversize_current : bool := true.
+(** LoadFromSnapshot resumes the saved queue through the replicator by hash (true); false =
+    pinned: Sync on hash-only entries (nil identity dereference). *)
+Definition c13_queue_by_hash_current : bool := true.
+(** LoadFromSnapshot reads frames with io.ReadFull (true); false = pinned: single Read. *)
+Definition c13_read_full_current : bool := true.
+
+(** baseorbitdb DetermineAddress rejects a result whose root differs from the manifest CID
+    (true, fix: commit); false = pinned: ".." segments of the name could replace the root. *)
+Definition c14_root_checked_current : bool := true.
